@@ -8,10 +8,12 @@
    or lookahead; ? * + ! @ ~ applied to nothing; empty alternative), "Either" (anything else: only
    totality - no panic, no hang - is demanded).
    Alphabet: "@", "Ident" (a known token type), "Foo" (an unknown one), "Lit" (a quoted literal),
-   ( ) [ ] { } | ? * + ! ~ : =                                                                 *)
+   ( ) [ ] { } | ? * + ! ~ : = and "Bad" (a malformed token)                                                              *)
 EXTENDS Integers, Sequences, FiniteSets, TLC
 
-Alpha == <<"@", "Ident", "Foo", "Lit", "(", ")", "[", "]", "{", "}", "|", "?", "*", "+", "!", "~", ":", "=">>
+Alpha == <<"@", "Ident", "Foo", "Lit", "(", ")", "[", "]", "{", "}", "|", "?", "*", "+", "!", "~", ":", "=", "Bad">>
+\* "Bad" is a lexically malformed token (lone quote or back-quote, unterminated string or comment): nothing but
+\* totality is demanded of a tag containing one
 
 Tok(t, i) == IF i <= Len(t) THEN t[i] ELSE "EOF"
 TermStart == {"@", "Lit", "!", "~", "[", "{", "(", "Ident", "Foo"}
@@ -77,8 +79,9 @@ EmptyAlt(t) ==
 \* "@@" captures a sub-production: only meaningful on struct/union-typed fields; on a scalar field nothing is demanded
 HasSelfCapture(t) == \E i \in 1..(Len(t) - 1) : t[i] = "@" /\ t[i + 1] = "@"
 \* a capture inside a capture, or several captures in one scalar field, are legal tag syntax; so is a lone type reference
+HasBad(t) == \E i \in 1..Len(t) : t[i] = "Bad"
 Class(t) ==
-  IF t = <<>> THEN "Either"
+  IF t = <<>> \/ HasBad(t) THEN "Either"
   ELSE IF HasSelfCapture(t) /\ WellFormed(t) THEN "Either"
   ELSE IF WellFormed(t) THEN "MustBuild"
   ELSE IF HasUnknown(t) \/ Unclosed(t, 1, <<>>) \/ NothingDefect(t) \/ EmptyAlt(t) THEN "MustError"
